@@ -364,7 +364,9 @@ def build_proof(proof, tmp, log):
         run(["goto-cc"] + defs + incs + includes + ["--function", entry] + objs + extra + trap + [twin_stub, harness, "-o", a],
             "goto-cc (link)")
 
-    if proof.get("loops"):
+    if proof.get("loops") or proof.get("loop_fingerprint"):
+        # also for proofs WITHOUT loop contracts: a loop that is new in the function would otherwise be unwound until the
+        # timeout (UNDECIDED); with the fingerprint the degraded bounded mode looks for a counterexample instead
         want = proof.get("loop_fingerprint")
         if want:
             got = fingerprint_loops(a, set(want.keys()), tmp)
@@ -569,6 +571,7 @@ def _run_proof_once(proof, tier, keep=False, backend=None):
             p2["unwind"] = 4
             p2["cbmc_flags"] = [f for f in proof.get("cbmc_flags", STD_CHECKS) if f != "--unwinding-assertions"] + ["--no-unwinding-assertions"]
             p2["must_exist"] = []
+            p2["object_bits"] = max(12, proof.get("object_bits", 0) or 0)   # unwinding multiplies the addressed objects
             proof = p2
             log.append("DEGRADED MODE: " + degraded)
             gb = build_proof(proof, tmp, log)
